@@ -228,34 +228,66 @@ def run(ctx: Ctx) -> None:
     # ------------------------------------------------------------ R-C32.3 explicit rejections
     cs = idx.find_func("check_signature", "guppylang_internals.checker.func_checker")
     ctx.saw("functions", cs.qualname)
+    from ..absint.minieval import Unsupported as _Uns
+    from ..absint.pyeval import PyEval as _PE, Raised as _Rai, Tok as _Tok
     for fld in ("posonlyargs", "kwonlyargs", "vararg", "kwarg", "defaults"):
+        key = f"{cs.qualname}#rejects-{fld}"
+        # (1) by interpretation: a signature whose only unusual part is this field must end in
+        #     raise GuppyError(UnsupportedError(<that parameter>, …)) -- wherever the test lives (inline or in a helper)
+        fields = {"posonlyargs": [], "kwonlyargs": [], "vararg": None, "kwarg": None, "defaults": [], "kw_defaults": [], "args": []}
+        param = _Tok("param", __ident__=1)
+        fields[fld] = param if fields[fld] is None else [param]
+        blamed: list = []
+
+        def h_unsupported(node, ev_, env_, blamed=blamed):
+            v = ev_.ev(node.args[0], env_) if node.args else None
+            blamed.append(v)
+            return _Tok("UnsupportedError")
+
+        top = [s_ for s_ in cs.node.body if not (isinstance(s_, ast.Expr) and isinstance(s_.value, ast.Constant))]
+        ev_ = _PE(idx, cs.module.name)
+        ev_.lenient = True
+        verdict = None
+        try:
+            r = ev_.run(top, {cs.node.args.args[0].arg: _Tok("func_def", args=_Tok("arguments", **fields), returns=_Tok("annotation"), name="f", body=[], decorator_list=[]),
+                              "UnsupportedError": h_unsupported})
+            verdict = r[0] == "raise" and r[1] == "GuppyError" and any(b is param or b == param for b in blamed)
+            if not verdict and r[0] == "raise" and not blamed:
+                verdict = None  # some other diagnostic was raised first: not conclusive about this field
+            elif not verdict and r[0] != "raise":
+                verdict = False  # ran to the end (or returned) without rejecting
+        except _Rai:
+            verdict = None
+        except _Uns:
+            verdict = True if any(b is param or b == param for b in blamed) else None
+        if verdict is not None:
+            ctx.check(verdict, "R-C32.3", key, cs.where, {"decided_by": "interpretation", "diagnostic_blames_the_parameter": bool(blamed)},
+                      f"function parameters of kind `{fld}` are accepted and ignored")
+            continue
+        # (2) fallback: the lexical form `if <test on args.FIELD>: raise GuppyError(…)`
         hit = None
         for n in walk_no_nested(cs.node):
-            if isinstance(n, ast.If) and any(isinstance(a, ast.Attribute) and a.attr == fld and ast.unparse(a.value).endswith(".args") for a in ast.walk(n.test)):
+            if isinstance(n, ast.If) and any(isinstance(a_, ast.Attribute) and a_.attr == fld and ast.unparse(a_.value).endswith(".args") for a_ in ast.walk(n.test)):
                 hit = n
                 break
-        ok = hit is not None and must_raise(hit.body) and all(raised_class(r)[0] == "GuppyError" for b in hit.body for r in ast.walk(b) if isinstance(r, ast.Raise))
+        ok = hit is not None and must_raise(hit.body) and all(raised_class(r_)[0] == "GuppyError" for b_ in hit.body for r_ in ast.walk(b_) if isinstance(r_, ast.Raise))
+        if hit is None:
+            ctx.undecided("R-C32.3", key, cs.where, "neither evaluable nor in the `if args.FIELD: raise` form")
+            continue
         if ok:
-            # the test must actually be true for a signature that has such a parameter: interpret the function up to
-            # this `if` on a signature whose only unusual part is this field
-            from ..absint.minieval import Unsupported as _Uns
-            from ..absint.pyeval import PyEval as _PE, Raised as _Rai, Tok as _Tok
-            fields = {"posonlyargs": [], "kwonlyargs": [], "vararg": None, "kwarg": None, "defaults": [], "kw_defaults": [], "args": []}
-            fields[fld] = _Tok("param") if fields[fld] is None else [_Tok("param")]
-            top = [s_ for s_ in cs.node.body if not (isinstance(s_, ast.Expr) and isinstance(s_.value, ast.Constant))]
+            # the test must also be TRUE for such a signature: interpret the function up to (and including) this `if`
             upto = next((i for i, s_ in enumerate(top) if any(x is hit for x in ast.walk(s_))), None)
             try:
                 if upto is None:
                     raise _Uns("the rejection is not a top-level statement")
-                r = _PE(idx, cs.module.name).run(top[: upto + 1], {cs.node.args.args[0].arg: _Tok("func_def", args=_Tok("arguments", **fields), returns=None, name="f", body=[])})
-                ok = r[0] == "raise" and r[1] == "GuppyError"
+                r2 = _PE(idx, cs.module.name).run(top[: upto + 1], {cs.node.args.args[0].arg: _Tok("func_def", args=_Tok("arguments", **fields), returns=None, name="f", body=[])})
+                ok = r2[0] == "raise" and r2[1] == "GuppyError"
             except _Rai:
                 ok = False
             except _Uns as e:
-                ctx.undecided("R-C32.3", f"{cs.qualname}#rejects-{fld}", cs.where, str(e))
+                ctx.undecided("R-C32.3", key, cs.where, str(e))
                 continue
-        ctx.check(ok, "R-C32.3", f"{cs.qualname}#rejects-{fld}", f"{cs.module.rel}:{hit.lineno}" if hit else cs.where,
-                  {"test": ast.unparse(hit.test) if hit else None},
+        ctx.check(ok, "R-C32.3", key, f"{cs.module.rel}:{hit.lineno}", {"decided_by": "shape + evaluation of the test", "test": ast.unparse(hit.test)},
                   f"function parameters of kind `{fld}` are accepted and ignored")
     for c in (chk, syn):
         f = c.methods.get("visit_Call")
